@@ -4,6 +4,7 @@ import Mathlib.Tactic.Linarith
 /-!
 # C02/C03 — separate chaining: the Model satisfies `Correct`
 -/
+set_option linter.unusedSectionVars false
 namespace AlgoVerif.C02
 open Spec AlgoVerif.Generated
 variable {K V σ : Type} [DecidableEq K]
@@ -627,18 +628,26 @@ theorem Chain.get_spec (hash : K → UInt64) (t : ChainTable K V) (key : K) (h :
   · unfold Chain.get
     simp only [Chain.get_of_lt hi]
   · intro v
-    rw [bucketGet_eq, lookup_eq_some_iff (h.nodup _ (by rw [← h.size]; exact hi)), Chain.live_iff_bucket h]
+    rw [bucketGet_eq, lookup_eq_some_iff (h.nodup _ (hashIdx_lt _ _ hm)), Chain.live_iff_bucket h]
 
-theorem Chain.delete_spec {sh : Shuffle σ} (hsh : ShufflePerm sh) (hash : K → UInt64) (d : Nat) (t : ChainTable K V) (g : σ)
-    (key : K) (h : Chain.Inv hash t) :
-    ∃ t' g' o, Chain.delete sh hash (d + 2) t g key = .ok (t', g', o) ∧ Chain.Inv hash t' ∧
-      (∀ k' v', Chain.Live t' k' v' ↔ k' ≠ key ∧ Chain.Live t k' v') ∧ ∀ v, o = some v ↔ Chain.Live t key v := by
+/-- the table right after `_delete` removed the node (before the load check) -/
+def Chain.afterDelete (hash : K → UInt64) (t : ChainTable K V) (key : K) : ChainTable K V :=
+  { t with
+    buckets := t.buckets.setIfInBounds (Chain.hashIdx t.m (mix (hash key)))
+      (Chain.bucketDelete key (Chain.bucket t (Chain.hashIdx t.m (mix (hash key))))).1
+    n := if (Chain.bucketDelete key (Chain.bucket t (Chain.hashIdx t.m (mix (hash key))))).2.isSome then t.n - 1 else t.n }
+
+theorem Chain.delete_core (hash : K → UInt64) (t : ChainTable K V) (key : K) (h : Chain.Inv hash t) :
+    Chain.Inv hash (Chain.afterDelete hash t key) ∧
+    (∀ k' v', Chain.Live (Chain.afterDelete hash t key) k' v' ↔ k' ≠ key ∧ Chain.Live t k' v') ∧
+    ∀ v, (Chain.bucketDelete key (Chain.bucket t (Chain.hashIdx t.m (mix (hash key))))).2 = some v ↔ Chain.Live t key v := by
   obtain ⟨hI, hroom⟩ := h
   have hm : 0 < t.m := Nat.lt_of_lt_of_le scMinM_pos hI.minM
-  have hi : Chain.hashIdx t.m (mix (hash key)) < t.buckets.size := by rw [hI.size]; exact hashIdx_lt _ _ hm
-  have hnd := hI.nodup _ (by rw [← hI.size]; exact hi)
+  have hi' : Chain.hashIdx t.m (mix (hash key)) < t.m := hashIdx_lt _ _ hm
+  have hnd := hI.nodup _ hi'
   obtain ⟨hd1, hd2, hd3, hd4⟩ := bucketDelete_spec (key := key) hnd
-  generalize hbd : Chain.bucketDelete key (Chain.bucket t (Chain.hashIdx t.m (mix (hash key)))) = bd at *
+  unfold Chain.afterDelete
+  generalize Chain.bucketDelete key (Chain.bucket t (Chain.hashIdx t.m (mix (hash key)))) = bd at *
   have hrep := Chain.replace_bucket hI key bd.1 (if bd.2.isSome then t.n - 1 else t.n)
     (by
       intro e he
@@ -647,45 +656,59 @@ theorem Chain.delete_spec {sh : Shuffle σ} (hsh : ShufflePerm sh) (hash : K →
     hd2
     (by
       rw [hd1]
-      split <;> rename_i hs <;> simp only [hs] at hd4 <;> omega)
-  -- the table after removing the node
-  have hL1 : ∀ k' v', Chain.Live { t with buckets := t.buckets.setIfInBounds (Chain.hashIdx t.m (mix (hash key))) bd.1,
-      n := if bd.2.isSome then t.n - 1 else t.n } k' v' ↔ k' ≠ key ∧ Chain.Live t k' v' := by
-    intro k' v'
+      cases hlk : Map.lookup (Chain.bucket t (Chain.hashIdx t.m (mix (hash key)))) key <;>
+        simp only [hlk, Option.isSome_none, Option.isSome_some, Bool.false_eq_true, if_false, if_true] at hd4 ⊢ <;> omega)
+  refine ⟨⟨hrep.1, ?_⟩, ?_, ?_⟩
+  · have hd : (0 : Int) < (t.maxLF.den : Int) := by exact_mod_cast hI.lf.maxDen
+    simp only
+    push_cast at hroom ⊢
+    split <;> nlinarith
+  · intro k' v'
     rw [hrep.2, Chain.live_iff_bucket hI]
     by_cases hh : Chain.hashIdx t.m (mix (hash k')) = Chain.hashIdx t.m (mix (hash key))
     · simp only [hh, if_true, hd3]
     · simp only [hh, if_false]
       have hne : k' ≠ key := by rintro rfl; exact hh rfl
       simp [hne]
-  have hR1 : Chain.Inv hash { t with buckets := t.buckets.setIfInBounds (Chain.hashIdx t.m (mix (hash key))) bd.1,
-      n := if bd.2.isSome then t.n - 1 else t.n } := by
-    refine ⟨hrep.1, ?_⟩
-    have hd : (0 : Int) < (t.maxLF.den : Int) := by exact_mod_cast hI.lf.maxDen
-    simp only
-    push_cast at hroom ⊢
-    split <;> nlinarith
-  have ho : ∀ v, bd.2 = some v ↔ Chain.Live t key v := by
-    intro v
+  · intro v
     rw [hd1, lookup_eq_some_iff hnd, Chain.live_iff_bucket hI]
-  unfold Chain.delete
-  simp only [Chain.get_of_lt hi, hbd]
+
+theorem Chain.delete_spec {sh : Shuffle σ} (hsh : ShufflePerm sh) (hash : K → UInt64) (d : Nat) (t : ChainTable K V) (g : σ)
+    (key : K) (h : Chain.Inv hash t) :
+    ∃ t' g' o, Chain.delete sh hash (d + 2) t g key = .ok (t', g', o) ∧ Chain.Inv hash t' ∧
+      (∀ k' v', Chain.Live t' k' v' ↔ k' ≠ key ∧ Chain.Live t k' v') ∧ ∀ v, o = some v ↔ Chain.Live t key v := by
+  obtain ⟨hR1, hL1, ho⟩ := Chain.delete_core hash t key h
+  have hm : 0 < t.m := Nat.lt_of_lt_of_le scMinM_pos h.1.minM
+  have hi : Chain.hashIdx t.m (mix (hash key)) < t.buckets.size := by
+    have := hashIdx_lt t.m (mix (hash key)) hm
+    rw [h.1.size]; exact this
+  have hdel : Chain.delete sh hash (d + 2) t g key =
+      (if ratioLE (Chain.afterDelete hash t key).n (Chain.afterDelete hash t key).m (Chain.afterDelete hash t key).minLF then
+        match Chain.resizeWith sh (Chain.put sh hash (d + 2)) (Chain.afterDelete hash t key) g ((Chain.afterDelete hash t key).m / 2) with
+        | .ok (t2, g2) => .ok (t2, g2, (Chain.bucketDelete key (Chain.bucket t (Chain.hashIdx t.m (mix (hash key))))).2)
+        | .panic => .panic
+        | .diverge => .diverge
+      else .ok (Chain.afterDelete hash t key, g, (Chain.bucketDelete key (Chain.bucket t (Chain.hashIdx t.m (mix (hash key))))).2)) := by
+    unfold Chain.delete
+    simp only [Chain.get_of_lt hi]
+    rfl
+  rw [hdel]
   split
-  · -- shrink
-    rename_i hle
-    obtain ⟨t2, g2, hr, hinv, hsame, _, _, hL2⟩ := Chain.resize_any hsh hash d _ g (t.m / 2) hrep.1
+  · obtain ⟨t2, g2, hr, hinv, hsame, _, _, hL2⟩ := Chain.resize_any hsh hash d (Chain.afterDelete hash t key) g
+      ((Chain.afterDelete hash t key).m / 2) hR1.1
       (by
         intro hmin
-        have : 2 ≤ t.m := by have := scMinM_pos; simp only at hmin; omega
-        exact (isPowerOf2_half t.m this hI.pow2).1)
-    simp only at hr
-    refine ⟨t2, g2, bd.2, by simp only [hr], ?_, ?_, ho⟩
-    · by_cases hmin : symboltable_scMinM ≤ t.m / 2
+        have hmm : (Chain.afterDelete hash t key).m = t.m := rfl
+        rw [hmm] at hmin ⊢
+        have : 2 ≤ t.m := by have := scMinM_pos; omega
+        exact (isPowerOf2_half t.m this h.1.pow2).1)
+    refine ⟨t2, g2, _, by simp only [hr], ?_, ?_, ho⟩
+    · by_cases hmin : symboltable_scMinM ≤ (Chain.afterDelete hash t key).m / 2
       · exact hinv hmin
       · rw [hsame (Nat.not_le.1 hmin)]; exact hR1
     · intro k' v'
       rw [hL2, hL1]
-  · exact ⟨_, g, bd.2, rfl, hR1, hL1, ho⟩
+  · exact ⟨_, g, _, rfl, hR1, hL1, ho⟩
 
 theorem Chain.deleteAll_spec (hash : K → UInt64) (t : ChainTable K V) (h : Chain.Inv hash t) :
     Chain.Inv hash (Chain.deleteAll t) ∧ ∀ k v, ¬ Chain.Live (Chain.deleteAll t) k v := by
@@ -727,7 +750,7 @@ theorem Chain.correct {sh : Shuffle σ} (hsh : ShufflePerm sh) (hash : K → UIn
     obtain ⟨t', g', h1, h2, _, _, h5⟩ := Chain.put_any hsh hash (depth - 2) t g k v hI
     exact ⟨t', g', h1, h2, h5⟩
   get := fun t k hI => Chain.get_spec hash t k hI.1
-  delete := fun t g k hI => Chain.delete_spec hsh hash (depth - 2) t g k hI
+  delete := fun _ t g k hI => Chain.delete_spec hsh hash (depth - 2) t g k hI
   deleteAll := fun t hI => Chain.deleteAll_spec hash t hI
   all := by
     intro t g hI
@@ -738,5 +761,68 @@ theorem Chain.correct {sh : Shuffle σ} (hsh : ShufflePerm sh) (hash : K → UIn
     obtain ⟨_, _, h3⟩ := Chain.all_spec hsh hI.1 g
     exact h3.symm
   equal := fun _ _ _ => rfl
+
+/-! ### valid options and the initial table -/
+
+/-- what `NewChainHashTable` accepts (capacity 0 = default, else a power of two ≥ the minimum), with
+default-or-tighter load-factor bounds -/
+def Chain.ValidOpts (o : Opts) : Prop :=
+  (o.cap = 0 ∨ (symboltable_scMinM ≤ o.cap ∧ isPowerOf2 o.cap = true)) ∧
+  ValidLF scMinLF scMaxLF (effLF o.minLF scMinLF) (effLF o.maxLF scMaxLF)
+
+theorem Chain.new_eff (o : Opts) :
+    (Chain.new o : Outcome (ChainTable K V)) =
+      Chain.new ⟨if o.cap = 0 then symboltable_scMinM else o.cap, effLF o.minLF scMinLF, effLF o.maxLF scMaxLF⟩ := by
+  have c1 : symboltable_scMinM ≠ 0 := by decide
+  have c2 : scMinLF.num ≠ 0 := by decide
+  have c3 : scMaxLF.num ≠ 0 := by decide
+  unfold Chain.new effLF
+  by_cases h1 : o.cap = 0 <;> by_cases h2 : o.minLF.num = 0 <;> by_cases h3 : o.maxLF.num = 0 <;>
+    simp [h1, h2, h3, c1, c2, c3]
+
+theorem Chain.init_spec (hash : K → UInt64) (o : Opts) (hv : Chain.ValidOpts o) :
+    ∃ t0 : ChainTable K V, Chain.new o = .ok t0 ∧ Chain.Inv hash t0 ∧ ∀ k v, ¬ Chain.Live t0 k v := by
+  obtain ⟨hcap, hlf⟩ := hv
+  have hc : symboltable_scMinM ≤ (if o.cap = 0 then symboltable_scMinM else o.cap) ∧
+      isPowerOf2 (if o.cap = 0 then symboltable_scMinM else o.cap) = true := by
+    rcases hcap with h | ⟨h1, h2⟩
+    · simp only [h, if_true]; exact ⟨Nat.le_refl _, by decide⟩
+    · have : o.cap ≠ 0 := by have := scMinM_pos; omega
+      simp only [this, if_false]; exact ⟨h1, h2⟩
+  obtain ⟨fresh, hnew, hfI, _, hfn, _, _, hfempty⟩ := Chain.new_spec (V := V) hash _ _ _ hlf hc.1 hc.2
+  refine ⟨fresh, by rw [Chain.new_eff, hnew], ⟨hfI, ?_⟩, hfempty⟩
+  have := Chain.den_le hfI
+  have hd : (0 : Int) < (fresh.maxLF.den : Int) := by exact_mod_cast hfI.lf.maxDen
+  rw [hfn]; push_cast; linarith
+
+/-! ### nodes visited (C03) -/
+
+theorem nodesVisited_le (key : K) (b : List (K × V)) : Chain.nodesVisited key b ≤ b.length := by
+  induction b with
+  | nil => simp [Chain.nodesVisited]
+  | cons e r ih =>
+    obtain ⟨k, v⟩ := e
+    unfold Chain.nodesVisited
+    simp only [List.length_cons]
+    split <;> omega
+
+theorem le_sumTo (f : Nat → Nat) (n i : Nat) (hi : i < n) : f i ≤ sumTo f n := by
+  induction n with
+  | zero => omega
+  | succ n ih =>
+    simp only [sumTo]
+    by_cases h : i = n
+    · subst h; omega
+    · have := ih (by omega); omega
+
+/-- a bucket walk visits at most `n` nodes -/
+theorem Chain.nodes_bound (hash : K → UInt64) (t : ChainTable K V) (key : K) (h : Chain.Inv hash t) :
+    ((Chain.nodesVisited key (Chain.bucket t (Chain.hashIdx t.m (mix (hash key)))) : Nat) : Int) ≤ t.n := by
+  have hm : 0 < t.m := Nat.lt_of_lt_of_le scMinM_pos h.1.minM
+  have h1 := nodesVisited_le key (Chain.bucket t (Chain.hashIdx t.m (mix (hash key))))
+  have h2 := le_sumTo (fun i => (Chain.bucket t i).length) t.m _ (hashIdx_lt t.m (mix (hash key)) hm)
+  rw [h.1.n_eq]
+  have h3 : (Chain.bucket t (Chain.hashIdx t.m (mix (hash key)))).length ≤ sumTo (fun i => (Chain.bucket t i).length) t.m := h2
+  omega
 
 end AlgoVerif.C02
